@@ -7,7 +7,7 @@ import props
 V = os.path.dirname(os.path.dirname(os.path.abspath(__file__)))
 
 INFO = {
- "C01": ("MC_Pipeline: TLC enumerates every text <= N over 10 indicator alphabets and checks the panic-site invariants of the scanner/parser model in every state; every enumerated text and a seeded pool (corpus, mutants, soups, boundary families) is replayed through 6 input back-ends (incl. contract-asserting inputs of capacity 8/16/64/128) x 4 APIs x 4 loaders on the real code; the work bound of YWork is judged by TLC.",
+ "C01": ("MC_Pipeline: TLC enumerates every text <= N over 10 indicator alphabets and checks the panic-site invariants of the scanner/parser model in every state; every enumerated text and a seeded pool (corpus, mutants, soups, boundary families) is replayed through 6 input back-ends (incl. contract-asserting inputs of capacity 8/16/64/128) x 4 APIs x 4 loaders on the real code; the work bound of YWork (input operations per character) is judged by TLC, and so is the scaling of CPU time over 35 input families x 3 interfaces at two sizes 16x apart (YWork!ScaleOK: work that is not an input operation).",
          "TLC small-scope exhaustiveness; beyond the bounds sampled executions only. Model/code disagreement is reported as drift.",
          "TLA+ model checking (TLC) of scanner+parser model, behaviours replayed into the real parser; TLC-judged work bound", "7/C01"),
  "C02": ("YEvents acceptor (TLA+) is an invariant of MC_Pipeline and of MC_ParserPDA (the parser automaton fed every token sequence, bounded stack depth); every distinct abstracted event delivery of the real parser (pull and push, two back-ends) over the pool is judged by the same acceptor in TLC.",
